@@ -103,15 +103,16 @@ class RecvModel:
         self.reset = False
         self.highest = 0
         self.degenerate = False  # entered an 'either' region
+        self.either_steps = 0
 
     def key(self):
-        return (tuple(sorted(self.have.items())), self.final, self.cursor, self.ended, self.reset, self.highest, self.degenerate)
+        return (tuple(sorted(self.have.items())), self.final, self.cursor, self.ended, self.reset, self.highest, self.degenerate, self.either_steps)
 
     def clone(self):
         m = RecvModel()
         m.have = dict(self.have)
-        m.final, m.cursor, m.ended, m.reset, m.highest, m.degenerate = (
-            self.final, self.cursor, self.ended, self.reset, self.highest, self.degenerate,
+        m.final, m.cursor, m.ended, m.reset, m.highest, m.degenerate, m.either_steps = (
+            self.final, self.cursor, self.ended, self.reset, self.highest, self.degenerate, self.either_steps,
         )
         return m
 
@@ -184,8 +185,19 @@ def recv_apply(impl, model, op, res, case):
             res.violation(exc_signature(exc, "recv:"), "receiver raised %r" % exc, case, exc_witness(exc))
             return False
     if model.degenerate or was_degenerate:
+        # 'either' region (a FIN / reset below the highest offset already received was accepted, or overlapping data
+        # disagreed): what is delivered is not compared any more, but the final size *is* fixed, so the final-size
+        # clause still binds: an error exactly when data lies beyond it or a FIN / reset disagrees with it
         res.count("recv_either_region")
-        return False  # stop exploring below an 'either' state
+        if exp[0] != got[0]:
+            sig = "recv:final-size-error-missing" if exp[0] == "err" else "recv:final-size-error-spurious"
+            res.violation(sig + ":final-size-below-highest-offset", "op %r: model %s, implementation %s (final size %s, highest offset received %s)"
+                          % (op, exp[0], got[0], model.final, model.highest), case, {"op": op})
+            return False
+        res.count("recv_either_region_final_size_clause_checked")
+        # (explored three operations deep below the point where the region was entered)
+        model.either_steps += 1
+        return model.either_steps <= 3
     if exp[0] == "err" or got[0] == "err":
         if exp[0] != got[0]:
             sig = "recv:final-size-error-missing" if exp[0] == "err" else "recv:final-size-error-spurious"
